@@ -526,6 +526,12 @@ def gen_map(rng, thorough):
             t[1], t[2] = rng.choice([(1, True), (1, 1.0), (0, False), (0.0, 0), (True, 1.0)])   # zero span, different types
         elif r < 0.3:
             t[0] = rng.choice([t[1], t[2]])               # an end point
+        elif r < 0.42:
+            # a narrow (but non-zero) source window far from the origin, or a tiny one at it: still an affine map
+            base = rng.choice([10 ** 9, 4 * 10 ** 9, 10 ** 12, -10 ** 9, 2 ** 31, 2.0 ** 40, 0, 0.0, 123456789])
+            width = rng.choice([1, 2, 500, 0.5, -1, 3, 2.0 ** -20, 1e-12 if base == 0 else 7])
+            t[1], t[2] = base, base + width
+            t[0] = rng.choice([base, base + width, base + width / 2, base - width, t[0]])
         cases.append(["map"] + t)
     cases += [["map", None, 0, 1, 0, 1], ["map", 1, None, None, 0, 1], ["map", 1, 0, 1, None, 1]]
     return cases
@@ -746,7 +752,7 @@ def run(ctx: C.Ctx):
     ctx.coverage.update({
         "evaluations": len(cases),
         "distinct_nontrivial": len({repr(c) for c in cases if nontrivial(c)}),
-        "rule": "Core: all histories of length <=2 (quick: + 3000 sampled of the 13824 length-3 ones; thorough: all) over a 24-call boundary alphabet, each followed by 8 probe reads; every single call of the full alphabet (11 pins x modes/values) from 4 start states followed by reads of all pins; seeded random histories of length <=20 (hot-pin biased, aliases mixed); respelled copies for the alias oracle. map: full 5-fold product of a small boundary set + seeded draws from a 26-value pool with forced zero spans and end points. sleep: boundary list + seeded values. Button: all bool sequences of length <=8 through the provider and through set_pressed + seeded long mixed histories. pot/ultra: constructor grids x boundary provider values. serial: constructor grid, values x newlines, seeded write/close/connect histories. Non-trivial = a Core history in which some pin is read after a call that addressed it / a button history with at least one poll / every other case.",
+        "rule": "Core: all histories of length <=2 (quick: + 3000 sampled of the 13824 length-3 ones; thorough: all) over a 24-call boundary alphabet, each followed by 8 probe reads; every single call of the full alphabet (11 pins x modes/values) from 4 start states followed by reads of all pins; seeded random histories of length <=20 (hot-pin biased, aliases mixed); respelled copies for the alias oracle. map: full 5-fold product of a small boundary set + seeded draws from a 26-value pool with forced zero spans, end points, and narrow non-zero source windows at large magnitude (1e9..1e12, widths 2^-20..500) or tiny ones at the origin. sleep: boundary list + seeded values. Button: all bool sequences of length <=8 through the provider and through set_pressed + seeded long mixed histories. pot/ultra: constructor grids x boundary provider values. serial: constructor grid, values x newlines, seeded write/close/connect histories. Non-trivial = a Core history in which some pin is read after a call that addressed it / a button history with at least one poll / every other case.",
         "samples": [core_cases[30], core_cases[-1], groups["map"][17], groups["sleep"][3], groups["button"][700], groups["pot"][2], groups["ultra"][5], groups["serial"][60]],
         "distribution": {"cases_per_submodel": {k: len(v) for k, v in groups.items()},
                          "core_history_lengths(bucketed by 5)": dict(sorted(sizes.items())),
